@@ -12,18 +12,20 @@
    Exact parts, with their source anchors:
      tokenize   token.go:113-153  res = append(scanned, eof) always; no recover
      parse      parse.go:12-27    p.Token is nil until the first p.Next(); the handler reads p.Token.Pos
-     loadImports load.go:26-107   NO recover; first iteration scans the top tree: pk.Unquote() per import path,
-                                  then rawLoadPackage(sys, pkg) per path (fs.Glob on sys: nil sys panics);
+     loadImports load.go:26-113   deferred recover: EVERY panic inside (pk.Unquote() on an import path, a nil node)
+                                  becomes an error; rawLoadPackage(nil fs, _) = os.ErrNotExist (load.go:171), so with
+                                  a nil fs.FS every imported package counts as missing (built-in);
                                   packages with no nodes are replaced by the synthetic (_ (package _ name));
                                   order = Model/Loader.v
      Eval glue  vm.go:187-236     pkgs[:len(pkgs)-1], pkgs[len(pkgs)-1:], treeDump, codeDump outside any recover
-     Load glue  vm.go:136-165     treeDump(all), compilePkgs, codeDump, run, "unexpected returns"
-     treeDump   vm.go:167-176     t.String() (token.go:42: nil receiver panics), s[3:len(s)-1]
+     Load glue  vm.go:136-165     loadPackage / loadFile (the top package is read OUTSIDE loadImports' recover),
+                                  treeDump(all), compilePkgs, codeDump, run, "error in run: unexpected returns"
+     treeDump   vm.go:167-176     t.String() (token.go:42: a nil receiver prints "<nil>"), s[3:len(s)-1]
      codeDump   vm.go:178-185     Pos.String -> pos.info (compiler.go:90-99: l.Key(idx)[1:]); instruction.String -> g.Key(operand)
      compiler.run handler compiler.go:175-183   nil-safe
      VM.run / Func handler  vm.go:58-79 btErr: clamps frame.N, Pos.String of the instruction and of every
                                   non-zero backtrace entry
-     newPos     compiler.go:78-83 (fileIdx<<48)|(funcIdx<<32)|(line<<16)|column *)
+     newPos     compiler.go:78-94 (c(fileIdx)<<48)|(c(funcIdx)<<32)|(c(line)<<16)|c(column), c = clamp16 *)
 From Coq Require Import ZArith List String Bool Lia.
 From GV Require Import Model.Loader.
 Import ListNotations.
@@ -63,21 +65,25 @@ Definition tokenize_model (b : scan_beh) : sres (list tok) :=
 
 (* ---- parse ------------------------------------------------------------------------------- *)
 
-(* after the first p.Next() the body returns a tree or panics; p.Token is only ever assigned from
-   p.Tokens[p.N] (parse.go:78), so it is non-nil from then on *)
-Inductive parse_beh := PRet (t : tree) | PPanic.
+(* after the first p.Next() the body returns or panics; p.Token is only ever assigned from
+   p.Tokens[p.N] (parse.go:78), so it is non-nil from then on.  What parse returns is always the node
+   res = &token{Text: "_"} with the statements appended (parse.go:13,23): the behaviour supplies the statements *)
+Inductive parse_beh := PRet (stmts : list tree) | PPanic.
 
 Definition parse_model (tokens : list tok) (b : parse_beh) : sres tree :=
   match tokens with
   | [] => SEscape "parse handler: p.Token is nil"     (* p.Next() indexes Tokens[0]; handler reads p.Token.Pos *)
-  | _ :: _ => match b with PRet t => SOk t | PPanic => SErr end
+  | _ :: _ => match b with PRet stmts => SOk (TNode "" "_" stmts) | PPanic => SErr end
   end.
 
 (* ---- positions --------------------------------------------------------------------------- *)
 
 Definition two64 : Z := 2 ^ 64.
-Definition new_pos (fi fu line col : Z) : Z :=
+(* clamp16 keeps a field from spilling into its neighbour *)
+Definition clamp16 (n : Z) : Z := if n <? 0 then 0 else if 65535 <? n then 65535 else n.
+Definition pack_pos (fi fu line col : Z) : Z :=
   (Z.lor (Z.lor (Z.lor (Z.shiftl fi 48) (Z.shiftl fu 32)) (Z.shiftl line 16)) col) mod two64.
+Definition new_pos (fi fu line col : Z) : Z := pack_pos (clamp16 fi) (clamp16 fu) (clamp16 line) (clamp16 col).
 Definition pos_file (p : Z) : Z := Z.land (Z.shiftr p 48) 65535.
 Definition pos_func (p : Z) : Z := Z.land (Z.shiftr p 32) 65535.
 
@@ -96,32 +102,20 @@ Definition pos_string_ok (keys : list string) (p : Z) : bool :=
 Fixpoint concat_sp (l : list string) : string :=
   match l with [] => "" | [x] => x | x :: r => x ++ " " ++ concat_sp r end.
 
-(* token.String; None = nil pointer dereference *)
-Fixpoint tstr (t : tree) : option string :=
+(* token.String; a nil receiver prints "<nil>" *)
+Fixpoint tstr (t : tree) : string :=
   match t with
-  | TNil => None
+  | TNil => "<nil>"
   | TNode _ text kids =>
       match kids with
-      | [] => Some text
-      | _ =>
-          let fix go (l : list tree) : option (list string) :=
-            match l with
-            | [] => Some []
-            | k :: r => match tstr k, go r with Some s, Some ss => Some (s :: ss) | _, _ => None end
-            end in
-          match go kids with
-          | Some ss => Some ("(" ++ text ++ " " ++ concat_sp ss ++ ")")
-          | None => None
-          end
+      | [] => text
+      | _ => "(" ++ text ++ " " ++
+             concat_sp ((fix go (l : list tree) : list string := match l with [] => [] | k :: r => tstr k :: go r end) kids) ++ ")"
       end
   end.
 
 (* one iteration of treeDump: s := t.String(); s = s[3:len(s)-1] *)
-Definition dump_one_ok (t : tree) : bool :=
-  match tstr t with
-  | Some s => (4 <=? String.length s)%nat
-  | None => false
-  end.
+Definition dump_one_ok (t : tree) : bool := (4 <=? String.length (tstr t))%nat.
 (* treeDump(w, trees): nothing happens when w == nil *)
 Definition tree_dump_ok (on : bool) (trees : list tree) : bool :=
   if on then forallb dump_one_ok trees else true.
@@ -181,7 +175,7 @@ Section Load.
   (* first iteration of the discovery loop on the top tree:
        for _, t := range p.Tokens { if t.Symbol != "import" { continue }
          for i := 1; i < len(t.Tokens); i += 2 { pk := t.Tokens[i]; pk.Unquote() ... } }
-     None = a panic (nil node, or Unquote's panicf) *)
+     None = a panic (nil node, or Unquote's panicf) -- caught by loadImports' recover *)
   Fixpoint odd_paths (l : list tree) : option (list string) :=
     match l with
     | _ :: TNode _ tx _ :: r => if unquotable tx then option_map (cons tx) (odd_paths r) else None
@@ -206,37 +200,40 @@ Section Load.
 
   (* the rest of the loader (reading, tokenizing and parsing the files of the imported packages,
      rawLoadPackage's checks) is a behaviour: it yields the import graph and the raw tree of every
-     package, an error, or a panic *)
+     package, an error, or a panic -- which the deferred recover of loadImports turns into an error *)
+  (* the tree of an imported package is joinFiles' symAtPos(pos, "_") with the nodes of its files, or
+     &token{} (no nodes) for a package that is not on disk: the behaviour supplies the nodes *)
   Inductive files_beh :=
-  | FRet (imports : string -> option (list string)) (raw : string -> tree) (budget : nat)
+  | FRet (imports : string -> option (list string)) (nodes : string -> list tree) (budget : nat)
   | FErr
   | FPanic.
 
+  (* total number of import entries of the packages in U: the discovery worklist of Model/Loader.v needs at
+     most 2 + weight U iterations when U contains top and is closed under imports (Proofs/C03_host.v) *)
+  Definition weight (imports : string -> option (list string)) (U : list string) : nat :=
+    fold_right (fun q n => match imports q with Some l => List.length l + n | None => n end)%nat 0%nat U.
+
   Definition load_imports_model (sys_is_nil : bool) (topPkg : string) (top : tree) (b : files_beh) : sres (list tree) :=
     match top_imports (kids_of top) with
-    | None => SEscape "loadImports: Unquote / nil node"
+    | None => SErr                                   (* recovered: "error parsing string: ..." *)
     | Some paths =>
-        match paths with
-        | _ :: _ => if sys_is_nil then SEscape "loadImports: fs.Glob on a nil fs.FS" else
-            match b with
-            | FPanic => SEscape "loadImports: panic while loading an imported package"
-            | FErr => SErr
-            | FRet imports raw budget =>
-                let imports' := fun p => if String.eqb p topPkg then Some paths else imports p in
-                match load imports' budget topPkg with
-                | LoadOk order => SOk (map (fun p => fix_empty p (if String.eqb p topPkg then top else raw p)) order)
-                | LoadCycle => SErr
-                | LoadFuel => SHang
-                end
-            end
-        | [] =>
-            (* no imports: the loop body runs once; nothing is read from sys *)
-            match load (fun p => if String.eqb p topPkg then Some [] else None) 2 topPkg with
-            | LoadOk order => SOk (map (fun p => fix_empty p top) order)
-            | LoadCycle => SErr
-            | LoadFuel => SHang
-            end
-        end
+        let finish (imports : string -> option (list string)) (raw : string -> tree) (budget : nat) :=
+          match load imports budget topPkg with
+          | LoadOk order => SOk (map (fun p => fix_empty p (if String.eqb p topPkg then top else raw p)) order)
+          | LoadCycle => SErr
+          | LoadFuel => SHang
+          end in
+        let top_only := fun p => if String.eqb p topPkg then Some paths else None in
+        if sys_is_nil || match paths with [] => true | _ => false end
+        then (* nothing is read from sys, or every rawLoadPackage(nil, _) is os.ErrNotExist: only the top package has imports *)
+             finish top_only (fun _ => TNode "_" "_" []) (S (S (weight top_only (topPkg :: paths))))
+        else match b with
+             | FPanic => SErr                                      (* recovered *)
+             | FErr => SErr
+             | FRet imports nodes budget =>
+                 finish (fun p => if String.eqb p topPkg then Some paths else imports p)
+                        (fun p => TNode "_" "_" (nodes p)) budget
+             end
     end.
 End Load.
 
@@ -277,9 +274,10 @@ Definition eval_model (unq : string -> bool) (sys_is_nil : bool) (o : options) (
 
 (* ---- Load ------------------------------------------------------------------------------------------- *)
 
-(* loadPackage / loadFile: rawLoadPackage or rawLoadFile on the argument (a behaviour: tree, error or
-   panic), treeSort (a permutation of the top-level nodes), then loadImports *)
-Inductive rawtop_beh := TopRet (t : tree) | TopErr | TopPanic.
+(* loadPackage / loadFile: rawLoadPackage or rawLoadFile on the argument (a behaviour: the nodes of
+   joinFiles' / parse's "_" tree, an error, or a panic -- this part is NOT under loadImports' recover),
+   treeSort (a permutation of the top-level nodes), then loadImports *)
+Inductive rawtop_beh := TopRet (nodes : list tree) | TopErr | TopPanic.
 
 Record load_adv := mkLoadAdv {
   la_top : rawtop_beh; la_files : files_beh; la_comp : comp_beh; la_run : run_beh; la_rets : nat }.
@@ -288,13 +286,14 @@ Definition load_model (unq : string -> bool) (sys_is_nil : bool) (topPkg : strin
   match la_top a with
   | TopPanic => Escape "loadPackage / loadFile"
   | TopErr => Err "error in load: "
-  | TopRet top =>
+  | TopRet nodes =>
+      let top := TNode "_" "_" nodes in
       bind (load_imports_model unq sys_is_nil topPkg top (la_files a)) "error in load: " SLoad (fun pkgs =>
       if negb (tree_dump_ok (tree_dump o) pkgs) then Escape "treeDump" else
       bind (compile_model (la_comp a)) "error in compile: " SCompile (fun kc =>
       if negb (code_dump_ok (code_dump o) (fst kc) (snd kc)) then Escape "codeDump" else
       bind (run_model (la_run a)) "error in run: " SRun (fun _ =>
-      match la_rets a with O => Ok | S _ => Err "unexpected returns: " end)))
+      match la_rets a with O => Ok | S _ => Err "error in run: " end)))       (* "error in run: unexpected returns: ..." *)
   end.
 
 (* ---- Func / Call ------------------------------------------------------------------------------------- *)
@@ -335,42 +334,30 @@ Definition entry_model (unq : string -> bool) (e : entry) : outcome :=
    Each is either proved on a detailed model or listed as an assumption tested by the harness; see
    Proofs/C03_host.v and checks/c03.py. *)
 
-Fixpoint no_nil (t : tree) : bool :=
-  match t with
-  | TNil => false
-  | TNode _ _ kids => (fix go (l : list tree) : bool := match l with [] => true | k :: r => no_nil k && go r end) kids
-  end.
+(* the key table of the globals: no key is empty ("nil", "true", "false", then "#file", "#func", "pkg.name",
+   literal texts ...), and it only grows *)
+Definition keys_ok (keys : list string) : Prop := keys <> [] /\ Forall (fun k => k <> "") keys.
 
-(* a Pos is 0 or was stamped by newPos with indices of existing "#..." keys and 16-bit fields *)
-Definition hash_key (keys : list string) (idx : Z) : Prop :=
-  exists s, nth_error keys (Z.to_nat idx) = Some ("#" ++ s).
+(* a Pos is 0 or was stamped by newPos with indices that lookup.Index returned (so they are inside the table);
+   line and column are arbitrary *)
 Definition stamped (keys : list string) (p : Z) : Prop :=
-  (p = 0 /\ exists k r, keys = k :: r /\ k <> "")
-  \/ exists fi fu line col,
-       p = new_pos fi fu line col /\ 0 <= fi < 65536 /\ 0 <= fu < 65536 /\ 0 <= line < 65536 /\ 0 <= col < 65536 /\
-       hash_key keys fi /\ hash_key keys fu.
+  p = 0 \/ exists fi fu line col,
+       p = new_pos fi fu line col /\ 0 <= fi < Z.of_nat (List.length keys) /\ 0 <= fu < Z.of_nat (List.length keys).
 
 Definition vmstate_ok (s : vmstate) : Prop :=
-  Forall (stamped (vkeys s)) (vcodes s) /\ Forall (fun p => p = 0 \/ stamped (vkeys s) p) (vbt s).
+  keys_ok (vkeys s) /\ Forall (stamped (vkeys s)) (vcodes s) /\ Forall (stamped (vkeys s)) (vbt s).
 Definition run_beh_ok (b : run_beh) : Prop := match b with RPanic s => vmstate_ok s | _ => True end.
 Definition func_beh_ok (b : func_beh) : Prop :=
   match b with
   | FnPanic s => vmstate_ok s
-  | FnRet _ keys => exists k r, keys = k :: r /\ k <> ""       (* key 0 is "nil" (newGlobals) *)
+  | FnRet _ keys => keys_ok keys
   | FnHang => True
   end.
 Definition comp_beh_ok (dump : bool) (b : comp_beh) : Prop :=
   match b with
-  | CRet keys code => dump = true -> Forall (fun i => stamped keys (dpos i) /\ forallb (key_ok keys) (dkeys i) = true) code
+  | CRet keys code => dump = true ->
+      keys_ok keys /\ Forall (fun i => stamped keys (dpos i) /\ forallb (key_ok keys) (dkeys i) = true) code
   | CPanic _ => True
   end.
-(* the raw top-level tree of a package: what parse / joinFiles / &token{} produce *)
-Definition raw_tree_ok (t : tree) : Prop := kids_of t = [] \/ (text_of t = "_" /\ no_nil t = true).
-Definition files_beh_ok (b : files_beh) : Prop :=
-  match b with
-  | FRet _ raw _ => forall p, raw_tree_ok (raw p)
-  | FErr => True
-  | FPanic => False
-  end.
-Definition parse_beh_ok (b : parse_beh) : Prop :=
-  match b with PRet t => text_of t = "_" /\ no_nil t = true | PPanic => True end.
+(* every package tree the loader sees has the text "_" (parse.go:13, load.go joinFiles) or no nodes at all *)
+Definition raw_tree_ok (t : tree) : Prop := kids_of t = [] \/ text_of t = "_".
